@@ -397,8 +397,21 @@ func genC01(t *rapid.T, tier Tier) C01Case {
 	if rapid.Bool().Draw(t, "hascap") {
 		c.Cap = rapid.IntRange(1, 6).Draw(t, "cap")
 	}
+	hugeCap := rapid.IntRange(0, 79).Draw(t, "hugecap?") == 0
+	if hugeCap {
+		// a capacity around a power of two, and a history that pushes right up to it
+		c.Cap = rapid.SampledFrom([]int{255, 256, 257, 4095, 4096, 4097, 5000}).Draw(t, "hugecap")
+		maxOps = 4
+	}
 	ops := []string{"push", "push", "push", "pop", "insert", "insert", "remove", "replace", "swap", "reverse", "reset", "fifo", "popn"}
 	n := rapid.IntRange(1, maxOps).Draw(t, "nops")
+	if hugeCap {
+		fill := C01Op{Op: "push"}
+		for j := 0; j < c.Cap+3; j++ {
+			fill.Nils = append(fill.Nils, false)
+		}
+		c.Ops = append(c.Ops, fill)
+	}
 	for i := 0; i < n; i++ {
 		o := C01Op{Op: rapid.SampledFrom(ops).Draw(t, "op")}
 		switch o.Op {
